@@ -620,8 +620,9 @@ def read_topmatter(text: str | Iterator[str]) -> dict[str, Any] | None:
         top_matter.append(line.rstrip() + "\n")
     try:
         metadata = yaml.safe_load("".join(top_matter))
-    except (yaml.YAMLError, ValueError) as err:
+    except (yaml.YAMLError, ValueError, RecursionError) as err:
         # ValueError: raised by the constructors of e.g. timestamps (2020-99-99)
+        # RecursionError: collections nested too deeply for the YAML parser
         raise TopmatterReadError("Malformed YAML") from err
     if not isinstance(metadata, dict):
         raise TopmatterReadError(f"YAML is not a dict: {type(metadata)}")
